@@ -227,13 +227,21 @@ def engine_traces(ctx, trace, what):
 
     def one(job):
         k, lv, tf, cfg = job
-        return job, vlib.tlc_trace_file(ctx, "EngineTrace", cfg, tf, name="EngineTrace-%s-%d" % (what.replace(" ", "_")[:20], k), timeout=600)
+        try:
+            return job, vlib.tlc_trace_file(ctx, "EngineTrace", cfg, tf, name="EngineTrace-%s-%d" % (what.replace(" ", "_")[:20], k), timeout=150)
+        except vlib.MachineryError as e:
+            if "timed out" in str(e):
+                return job, {"skipped": True}
+            raise
 
     with ThreadPoolExecutor(max_workers=8) as ex:
         results = list(ex.map(one, jobs))
     ok = 0
     for (k, lv, tf, cfg), r in results:
         n = len(lv["events"])
+        if r.get("skipped"):
+            ctx.notes.append("EngineTrace: the search for an explanation of engine life %d of %s (%d events) was cut off after 150 s: not judged" % (k, what, n))
+            continue
         if r["accepted"]:
             ok += 1
             ctx.traces += 1
